@@ -97,6 +97,8 @@ func (ex *Exec) apiIntrinsic(name string, fn *ssa.Function, args []Value, fr *Fr
 	case "verifAssert":
 		ex.doAssert(ex.concName(args[0]), args[1].(*Term), fr, pos)
 		return nil, true
+	case "verifNativeAssert":
+		return nil, true
 	case "verifReach":
 		ex.addEvent("reach", ex.concName(args[0]), termTrue)
 		return nil, true
@@ -241,6 +243,7 @@ func normTypeName(s string) string {
 }
 
 func (ex *Exec) observe(prefix string, v Value, fr *Frame) {
+	n0 := len(ex.events)
 	ex.flatten(prefix, v, nil, 0, func(name, conc string, t *Term) {
 		if strings.HasPrefix(conc, "\x01univ:") {
 			ex.events = append(ex.events, Event{Kind: "observe-str", ID: name, T: t, Conc: conc[6:]})
@@ -250,6 +253,7 @@ func (ex *Exec) observe(prefix string, v Value, fr *Frame) {
 			ex.events = append(ex.events, Event{Kind: "observe", ID: name, Conc: conc})
 		}
 	})
+	_ = n0
 }
 
 func (ex *Exec) flatten(prefix string, v Value, t types.Type, depth int, emit func(name, conc string, t *Term)) {
@@ -348,13 +352,26 @@ func (ex *Exec) flatten(prefix string, v Value, t types.Type, depth int, emit fu
 			e MapEntry
 		}
 		var kvs []kv
+		symbolic := false
 		for _, e := range x.entries {
 			ks, ok := ex.keyString(e.key)
 			if !ok {
-				emit(prefix+".keys", "<symbolic-keys>", nil)
-				return
+				symbolic = true
+				break
 			}
 			kvs = append(kvs, kv{ks, e})
+		}
+		if symbolic {
+			// keys contain solver variables: the entry names carry placeholders that are filled in from the model
+			for _, e := range x.entries {
+				ks := ex.keyTemplate(e.key)
+				first := len(ex.events)
+				ex.flatten(prefix+"{"+ks.text+"}", e.val, x.typ.Elem(), depth+1, emit)
+				for i := first; i < len(ex.events); i++ {
+					ex.events[i].KeyTs = append(append([]*Term{}, ks.terms...), ex.events[i].KeyTs...)
+				}
+			}
+			return
 		}
 		sort.Slice(kvs, func(i, j int) bool { return kvs[i].k < kvs[j].k })
 		for _, e := range kvs {
@@ -529,4 +546,37 @@ func (ex *Exec) deepEqual(a, b Value, depth int) *Term {
 		return boolConst(ok && x.v == y.v)
 	}
 	panic(unsupported{fmt.Sprintf("verifDeepEqual on %T", a)})
+}
+
+type keyTmpl struct {
+	text  string
+	terms []*Term
+}
+
+// keyTemplate renders a map key whose scalar parts may be symbolic; each symbolic part becomes the placeholder
+// "\x02" that is replaced by the model value (in order of terms).
+func (ex *Exec) keyTemplate(k Value) keyTmpl {
+	switch x := k.(type) {
+	case *Term:
+		if x.conc {
+			s, _ := ex.keyString(x)
+			return keyTmpl{text: s}
+		}
+		return keyTmpl{text: "\x02", terms: []*Term{x}}
+	case IfaceV:
+		if x.typ == nil {
+			return keyTmpl{text: "nil"}
+		}
+		in := ex.keyTemplate(x.v)
+		return keyTmpl{text: normTypeName(typeStr(x.typ)) + "/" + in.text, terms: in.terms}
+	case StrV:
+		if x.sym != nil && x.sym.kind == symUniverse {
+			return keyTmpl{text: "\x03" + strings.Join(x.sym.strs, "\x00") + "\x03", terms: []*Term{x.sym.idx}}
+		}
+	}
+	s, ok := ex.keyString(k)
+	if !ok {
+		return keyTmpl{text: "<symbolic-key>"}
+	}
+	return keyTmpl{text: s}
 }
